@@ -63,7 +63,7 @@ CLAIMED.update({
   text="Full deductive proof of the sorter on the real code: mergeArrays and the bottom-up sortValues (both loops, clamped bounds, array swapping, final copy) leave a permutation of the input for EVERY ranking function "
        "(multiset counts; each ranker call returns an unconstrained value), terminate (variants on all loops), write nothing outside values[0:len], and yield an ascending result whenever the ranker is a deterministic total preorder "
        "(run structure via an alignment theory whose lemmas are themselves proved from div/mod by SMT, one by Lean 4 + Mathlib in the thorough tier); ReverseValues reverses exactly; ShuffleValues permutes; "
-       "the Sort/Reverse/Shuffle methods of Array, List and Catalog are proved to have the same effect on their views. Count lemmas (agree, split, extend, swap, reverse) are proved by mechanised induction.",
+       "the Sort/Reverse/Shuffle methods of Array, List and Catalog are proved to have the same effect on their views, and the ordering postcondition is carried through the SorterLike and Sortable interface contracts (a collection sorted with a ranker is ordered by that ranker). Count lemmas (agree, split, extend, swap, reverse) are proved by mechanised induction.",
   note="Hypotheses: a ranker call terminates normally and does not touch the arrays being sorted; randomizeIndex (crypto/rand) returns a value in [0,size) — trusted, not verified. "
        "Assumed: align_half in the quick tier (Lean-checked in thorough); 'equal multisets imply a bijection' (perm_bijection) links the two formulations of permutation for Catalog. "
        "Slices are at most 2^61 long (so width*2 cannot overflow). Trusted: front end, engine, solvers.",
@@ -84,7 +84,7 @@ CLAIMED.update({
   text="Deductive proof that each leaf ranker (booleans, bytes, runes, signed, unsigned, floats, strings, complex) computes the natural rank of its kind over the full symbolic domain (loop-free code, complete proofs), "
        "with SMT lemmas that these natural ranks are total preorders (float/complex transitivity fails exactly at NaN and at the complex branch cut: recorded known findings, re-proved under their guards); "
        "of rankIntrinsics' kind dispatch (every supported reflect kind goes to the right ranker with the right conversions; panics only for unsupported kinds); of rankValues' treatment of undefined/nil values "
-       "(nil ranks before every defined value) and of mixed types (ordered by type name); and of rankArrays: lexicographic order with a proper prefix first, including the operand swap. "
+       "(nil ranks before every defined value) and of mixed types (ordered by type name); of rankArrays: lexicographic order with a proper prefix first, including the operand swap; and of rankMaps' key discipline (after sorting, every key array still consists of keys of its own map, and each map is indexed only with its own keys). "
        "Termination of the whole mutually recursive traversal is proved by a lexicographic variant (see C08).",
   note="NOT decided deductively (no contract within reach; reflective code): that the lexicographic/keyed lifts of a preorder are again preorders (standard mathematics, not mechanised), rankMaps beyond its empty/prefix cases "
        "(key arrays are sorted through reflection), rankSequences/rankInterfaces/rankStructures results (reflect Method/Call/Field), and insertion-order independence for maps. "
@@ -104,7 +104,7 @@ CLAIMED.update({
  "C12": dict(
   text="Zero-annotation safety sweep (one obligation per possible Go runtime panic: nil receiver, index, slice bounds, non-comma-ok type assertion) over every function of parser.go, scanner.go and token.go, discharged with thin contracts: "
        "every parse* method returns a non-nil token on both outcomes (what formatError dereferences), push-back stack and token queue are distinct non-nil objects holding non-nil tokens, the scanner cursor invariant "
-       "0 <= first <= next <= len(runes) with line <= 1 + consumed runes, indexOfLastEOL's exact result, and frame conditions (parse* only touch the two token containers). For every input string — the source is symbolic — no path of ParseSource reaches a Go runtime error.",
+       "0 <= first <= next <= len(runes) with line <= 1 + consumed runes, indexOfLastEOL's exact result, frame conditions (parse* only touch the two token containers), and — over the scanner's own history of emitted tokens — that an error token is followed by nothing but the end-of-file token (the scanner stops at the first error). For every input string — the source is symbolic — no path of ParseSource reaches a Go runtime error.",
   note="NOT decided (outside the family or no contract within reach): termination of the input-driven loops and recursion (hangs), Go stack exhaustion on deep nesting, the scanner goroutine being left blocked after a parser panic, "
        "exactness of the reported line/column. Assumptions (listed in evidence): regexp submatches are substrings of the text; hexadecimal tokens match 0x[0-9a-f]+; every token's line lies inside the source (formatError); "
        "tokens taken from the queue are the non-nil ones the scanner added (producer side checked in emitToken); package-level class objects are non-nil; scannerClass_.MatchToken/FormatToken and strconv/strings/fmt are external.",
@@ -116,7 +116,7 @@ CLAIMED.update({
   text="Deductive proof for formatter.go of (a) independence of earlier calls: whatever state an earlier (also failed) call left, FormatValue starts the traversal from depth 0 and an empty buffer and leaves that state on return "
        "(strings.Builder modelled by its accumulated text); (b) balanced depth bookkeeping in every format* function on normal exits; (c) termination of the mutually recursive traversal by the variant (maximum - depth, function rank) — "
        "which holds for multi-item sequences and FAILS for single-item sequences and association values (recorded known finding: a self-containing singleton overflows the stack; witnessed on the real code); "
-       "(d) a zero-annotation runtime-safety sweep (nil, index, slice, type assertion) over all format* functions.",
+       "(d) a zero-annotation runtime-safety sweep (nil, index, slice, type assertion) over all format* functions; (e) formatMap writes every key with the value the map holds under that very key (call-site obligations on formatAssociation's operands).",
   note="NOT decided deductively (no contract within reach): that ParseSource(FormatValue(v)) reproduces v and the text (element order, kinds, key/value pairing, numeric literal languages such as exponent floats) — this needs regexp/strconv semantics and a formatter–parser pair proof; "
        "no bounded stand-in is registered yet. Assumed: reflect accessors pure and non-panicking, getters return one value, the reflective HasNext call yields a bool (trusted runtime check), strings.Builder contracts.",
   design="DESIGN.md §4.C10"),
@@ -126,7 +126,7 @@ CLAIMED.update({
  "C11": dict(
   text="Deductive proof of the clause 'accepted text is never silently altered': for every token the parser accepts as an intrinsic, the returned value is exactly the value the token text denotes under the (assumed) strconv contracts — "
        "a conversion error can no longer be discarded (boolean, complex, float, hexadecimal, integer, nil, rune, string; 8 postconditions on parseIntrinsic, exceptional postcondition on checkLiteral) — for all token texts (symbolic). "
-       "Also proved (shared with C12): parseToken returns the token value and type it matched, tokens handed on are non-nil.",
+       "Also proved: parseToken returns the token value and type it matched, tokens handed on are non-nil, and every ParseSource call works on a token queue and a push-back stack allocated by that very call (nothing is carried over from an earlier, possibly failed, call).",
   note="NOT decided deductively: that every derivation of Syntax.cdsn is accepted with its intended collection (needs a soundness/completeness proof of the backtracking parser plus regexp ordered-alternation semantics), "
        "that the push-back stack (capacity 4) never overflows, and independence from goroutine scheduling. A bounded stand-in for grammar acceptance is planned but not registered. "
        "Assumed: strconv.Parse*/Unquote fail exactly when the text has no exact representation and otherwise return its value; MatchToken's first element is the token's match.",
@@ -135,11 +135,11 @@ CLAIMED.update({
 
 CLAIMED.update({
  "C20": dict(
-  text="Deductive proof, on the real Module.go code, that the universal constructors Association, List, Stack and Array agree with the class constructors and with the parser for their documented data forms "
-       "(none / size or capacity / Go array / CDCN source): the postcondition of each form is stated with the same specification functions as the class-level constructor (view, capacity, akey/aval, parsedval(source) = what ParseSource returns), "
-       "argument type switches are modelled with symbolic dynamic-type tags so that identical key and value types (tid.K == tid.V) are a possible world. Four genuine defects were found this way and repaired.",
-  note="NOT under contract yet: Queue, Set, Catalog and Map constructors, the sequence (Sequential[V]) and collator forms, and a notation passed as an extra argument in either position (contracts require at most one argument). "
-       "Assumed: reflect.Type.Implements agrees with the type assertion; ParseSource is a function of the source text (parsedval); class accessors return non-nil classes.",
+  text="Deductive proof, on the real Module.go code, that all eight universal constructors — Association, Array, Catalog, List, Map, Queue, Set and Stack — agree with the class constructors and with the parser for their documented data forms "
+       "(none / size or capacity / Go array or Go map / CDCN source): the postcondition of each form is stated with the same specification functions as the class-level constructor (view, capacity, akey/aval, set membership under the set's collator, key membership and last-value-wins for catalogs and maps, parsedval(source) = what ParseSource returns), "
+       "argument type switches are modelled with symbolic dynamic-type tags so that identical key and value types (tid.K == tid.V) are a possible world. Five genuine defects were found this way and repaired.",
+  note="NOT under contract: the sequence (Sequential[V]), collator and association-array forms, and a notation passed as an extra argument in either position (contracts require at most one argument and name the accepted forms in a precondition; loops that only those forms reach are proved unreachable under it). "
+       "Assumed: reflect.Type.Implements agrees with the type assertion; ParseSource is a function of the source text (parsedval) and returns non-nil, already allocated associations; class accessors return non-nil classes.",
   design="DESIGN.md §4.C20"),
 })
 
@@ -148,7 +148,8 @@ CLAIMED.update({
   text="Deductive proof of the sequential half of the linearizability argument on the real queue.go: every public queue_ method, run without interference, has exactly one FIFO effect on the abstract queue "
        "(AddValue appends, RemoveHead returns and removes the head or reports ok=false only when closed and empty, RemoveAll empties, GetSize/IsEmpty/AsArray report the abstract content in order and GetSize <= capacity), "
        "the representation invariant (tokens in available_ == len(values_) <= capacity_) holds between calls, every Lock is paired with an Unlock on every path including panics, "
-       "and a guarded-by obligation is generated for every read or write of values_ and available_ (mutex_ must be held unless the object is still confined to its allocating call). "
+       "a guarded-by obligation is generated for every read or write of values_ and available_ and for every method call on an object read from them (mutex_ must be held at that moment unless the queue is still confined to its allocating call), no mutex acquired by the call is held at a channel operation that may block, "
+       "and an INTERFERENCE PASS re-executes the methods with the guarded fields re-read under the type's lock invariant after every Lock (and the lock invariant re-proved before every Unlock): GetSize() <= capacity is proved whatever other threads do between this thread's steps. "
        "The guarded-by obligations that fail are a genuine defect (unlocked reads of available_ racing with RemoveAll); it is recorded as a known finding with a go test -race witness that is re-run on every check.",
   note="NOT decided by this family: interference between concurrently running calls (stability of each method's intermediate assertions under the other threads' steps), hence linearizability under every schedule, "
        "real-time order across overlapping calls, back-pressure timing and absence of data races beyond the guarded-by discipline. These are whole-history / schedule properties; the contracts decide the per-call effect, lock pairing and lock discipline only. "
@@ -159,7 +160,7 @@ CLAIMED.update({
        "must be provably non-blocking: precondition `localfresh(q) ==> len(view(q)) < capacity(q)` on QueueLike.AddValue, checked at every call site in MakeFromArray, MakeFromSequence and their loops with invariants that count the values added so far. "
        "The original MakeFromSequence failed it (capacity 16 regardless of the number of initial values: self-deadlock for N > 16) and was repaired by a fix: commit; the parser path (parseSequence -> MakeFromSequence) inherits the contract.",
   note="NOT decided by this family: lost wake-ups and termination of producer/consumer programs under every schedule (liveness over schedules; a contract has no notion of 'eventually'). "
-       "The module-level Queue constructor is not under contract (its source form still adds values one by one through AddValue on a default-capacity queue: reported in DESIGN.md as an open observation, not decided here).",
+       "Decided in addition: the module-level Queue constructor (its source form blocked for more than 16 values: second fix: commit) and 'no mutex held at a blocking channel operation' in RemoveHead/AddValue (a consumer parked with the lock held deadlocks every producer).",
   design="DESIGN.md §4.C05"),
  "C06": dict(
   text="Deductive proof, on the real Fork/Split/Join code including the three helper goroutine bodies (closures verified as functions of their captured variables), of the stream bookkeeping each helper performs, "
